@@ -48,7 +48,7 @@ def for_loops(nv):
             if t["k"] == "call":
                 n = callee_names(t)
                 nm = n[1] or n[0] or ""
-                if nm.endswith("Iterator>::next") or nm.endswith("Iterator::next"):
+                if nm.endswith("::next") and "Iterator" in nm:
                     it = nv.term_of_operand(t["args"][0])
                     info["kind"] = "for"
                     info["next_bb"] = bb
@@ -131,7 +131,11 @@ def affine(t, nv=None, expand=True, _depth=0):
         if len(ds) == 1 and ds[0][2] == "assign":
             d = nv.definition(t[1])
             lty = nv.local_ty(t[1])
-            if lty in ("usize", "u32", "u64", "i32", "u16", "u8", "isize", "i64"):
+            dd = d
+            while dd[0] == "cast":
+                dd = dd[1]
+            arithmetic = dd[0] in ("bin", "const", "local") or (dd[0] == "field" and dd[1][0] == "bin")
+            if arithmetic and lty in ("usize", "u32", "u64", "i32", "u16", "u8", "isize", "i64"):
                 r = affine(d, nv, expand, _depth + 1)
                 if r is not None:
                     return r
